@@ -194,7 +194,7 @@ class LatticeApp(object):
             return buf
         self.log.append(q)
         bbox = [float(v) / self.scale for v in q['BBOX'].split(',')]
-        if q.get('VERSION') == '1.3.0' and q.get('CRS') == 'EPSG:4326':
+        if q.get('VERSION') == '1.3.0' and q.get('CRS') in ('EPSG:4326', 'EPSG:31467'):
             bbox = [bbox[1], bbox[0], bbox[3], bbox[2]]       # WMS 1.3.0: the BBOX follows the axis order of the CRS
         size = (int(q['WIDTH']), int(q['HEIGHT']))
         img = paint_cells(self.g, bbox, size)
